@@ -21,7 +21,7 @@ def main():
     so = os.path.join(wt, 'seeded_out')
     patch, demo, notes = [os.path.join(so, '%s_%s.%s' % (a, k, b)) for a, b in (('patch', 'diff'), ('demo', 'py'), ('notes', 'md'))]
     env = {'PYTHONPATH': wt, 'PYTHONDONTWRITEBYTECODE': '1'}
-    sh(['git', 'checkout', '--', '.'], wt)
+    sh(['git', 'checkout', '--', '.'], wt); sh(['git', 'clean', '-fdq', '-e', 'refactor_out', '-e', 'seeded_out'], wt)
     res = {'property': prop, 'k': k}
     c, out = sh([PY, demo], wt, env, 900)
     res['demo_clean_exit'] = c
@@ -42,7 +42,7 @@ def main():
             first = [l.strip() for l in out.split('\n') if l.startswith('  [')]
             res['checks'][p] = {'exit': c, 'first_finding': first[0][:300] if first else '', 'secs': round(time.time() - t0)}
     finally:
-        sh(['git', 'checkout', '--', '.'], wt)
+        sh(['git', 'checkout', '--', '.'], wt); sh(['git', 'clean', '-fdq', '-e', 'refactor_out', '-e', 'seeded_out'], wt)
     confirmed = res['demo_clean_exit'] == 0 and res['tests_pass'] and res['demo_patched_exit'] == 1
     res['confirmed'] = confirmed
     print(json.dumps(res, indent=1))
